@@ -456,7 +456,8 @@ def execute(case, scratch):
                     for sub, sd in cd['subcategories'].items():
                         for mid, m in sd['merchants'].items():
                             for t in m['transactions']:
-                                if not (t['source'] in failing and rid(t['description']) in near):
+                                # (a row of that source whose number can no longer be read is the record holding the stray bytes)
+                                if not (t['source'] in failing and (rid(t['description']) in near or not rid(t['description']))):
                                     got.append((t['source'], rid(t['description']) or -1, t['month'], round(t['amount'], 2)))
                 got.sort()
                 if got != want:
